@@ -73,6 +73,13 @@ def peers(tier):
                               mac=['', 'hmac-sha1', '', 'hmac-md5', 'hmac-sha2-256', ''], banner=b'SSH-2.0-OpenSSH_8.0', rsa_bits=2048),
         'empty-entry-before-only-failure': dict(kex=['curve25519-sha256'], key=['ssh-ed25519'], enc=['aes256-ctr', '', '3des-cbc'], mac=['hmac-sha2-256-etm@openssh.com'], banner=b'SSH-2.0-OpenSSH_9.6'),
         'nonascii-banner': dict(kex=['curve25519-sha256'], key=['ssh-ed25519'], enc=['aes256-ctr'], mac=['hmac-sha2-256'], banner=b'SSH-2.0-Frob\x80SSH'),
+        # lines of peer-chosen length: one name of 1100 / 5000 characters per list next to rated names (the text renderings pad every name of
+        # a list to its longest), a long comment, long lines in front of the identification string
+        'long-names': dict(kex=['curve25519-sha256', 'k' * 1100 + '@example.org', 'diffie-hellman-group1-sha1'], key=['ssh-ed25519', 'h' * 1100 + '@example.org', 'ssh-rsa'],
+                           enc=['aes256-ctr', 'e' * 1100 + '@example.org', '3des-cbc'], mac=['hmac-sha2-256', 'm' * 1100 + '@example.org', 'hmac-md5'], banner=b'SSH-2.0-OpenSSH_8.0', rsa_bits=2048),
+        'very-long-name': dict(kex=['curve25519-sha256'], key=['ssh-ed25519'], enc=['3des-cbc', 'aes256-ctr', 'e' * 5000 + '@example.org', 'arcfour'], mac=['hmac-sha2-256', 'hmac-sha1'], banner=b'SSH-2.0-OpenSSH_8.0'),
+        'long-lines': dict(kex=['curve25519-sha256', 'diffie-hellman-group1-sha1'], key=['ssh-ed25519'], enc=['aes256-ctr', '3des-cbc'], mac=['hmac-sha2-256'],
+                           banner=b'SSH-2.0-OpenSSH_8.0 ' + b'c' * 1500, pre_banner=[b'w' * 1200, b'x' * 3000]),
     }
     # a peer whose answers depend on how many connections it has seen (MaxStartups, a rate limiter, one slow accept): connection k of
     # the audit is refused / closed without a word / never established.  The sequence of connections an audit makes is the same under
@@ -86,7 +93,7 @@ def peers(tier):
                                                  enc=['aes256-ctr'], mac=['hmac-sha2-256'], banner=b'SSH-2.0-OpenSSH_7.4', rsa_bits=2048, gex=[1024, 2048], label='pf', faults={('pf', k, at): fault})
             nth.append('conn-%d-%s' % (k, fname))
     if tier == 'quick':
-        keep = nth + ['empty-entries', 'empty-entry-before-only-failure', 'clean', 'warn-only', 'fail-mixed', 'terrapin', 'unknown', 'gss', 'rsa2048', 'gex1024', 'ssh1', 'header', 'cert', 'nonascii-banner', 'strict-kex-multi', 'client-role', 'asym', 'asym-clean-s2c', 'probe-fault-rsa1024', 'probe-fault-rsa2048', 'cert-sha2-warn', 'cert-sha2-ca-warn', 'repeat-family-enc', 'repeat-family-mac-kex', 'probe-closed-gex', 'probe-closed-hostkey']
+        keep = nth + ['long-names', 'very-long-name', 'long-lines', 'empty-entries', 'empty-entry-before-only-failure', 'clean', 'warn-only', 'fail-mixed', 'terrapin', 'unknown', 'gss', 'rsa2048', 'gex1024', 'ssh1', 'header', 'cert', 'nonascii-banner', 'strict-kex-multi', 'client-role', 'asym', 'asym-clean-s2c', 'probe-fault-rsa1024', 'probe-fault-rsa2048', 'cert-sha2-warn', 'cert-sha2-ca-warn', 'repeat-family-enc', 'repeat-family-mac-kex', 'probe-closed-gex', 'probe-closed-hostkey']
         ps = {k: ps[k] for k in keep}
     else:
         # every severity mix of the database per category as extra peers
